@@ -7,7 +7,9 @@ CONFIG = {'gen': ['SmbCommands'],
          'in two cases of three) -> marshal, unmarshal into a fresh command, compare every field and the AndX block, re-marshal, compare '
          'bytes (smb.rt); complement one fixed-width field and compare the changed byte range with its slot (smb.slot); unconstrained '
          'assignments (tie only). distinct = distinct line; non-trivial = the implementation produced a value In half of the smb.rt cases '
-         'the bytes are decoded twice into the same command object (the second decode must show the second message only). smb.dialects: the Dialects list as a value of its own (identifiers with high bytes; half of the decodes into a used value): Marshal, Unmarshal, compare with one 02 name 00 per identifier.',
+         'the bytes are decoded twice into the same command object (the second decode must show the second message only). smb.dialects: '
+         'the Dialects list as a value of its own (identifiers with high bytes; half of the decodes into a used value): Marshal, '
+         'Unmarshal, compare with one 02 name 00 per identifier.',
  'assumptions': ['reflect-based field assignment in the harness sets exactly the exported fields of the command structure',
                  "the factories' constructors (New…() + Init()) give the initial field values passed to the model as env0"],
  'trusted': ['tools/extract/smb_commands.go (statement-by-statement translation of the 115 Marshal/Unmarshal bodies into the command IR; '
@@ -16,9 +18,9 @@ CONFIG = {'gen': ['SmbCommands'],
              'as modelled in SmbIR/SmbCmd',
              'nested wire types through the C06 models (Manticore/Model/C06.lean, SmbCodecs adapters)'],
  'technique': 'Lean 4: generic round-trip theorem over the command IR (induction over programs) + kernel-decided static predicates '
-              '(Mirror, known-finding classification) over marshal/unmarshal programs regenerated from /repo on every run by a go/ast '
-              'translator; executable IR semantics tied to the Go code by differential correspondence on all 114 commands; round-trip '
-              'oracle on the same inputs',
+              '(Mirror, MirrorLoops, known-finding classification) over marshal/unmarshal programs regenerated from /repo on every run by '
+              'a go/ast translator; executable IR semantics tied to the Go code by differential correspondence on all 114 commands; '
+              'round-trip oracle on the same inputs',
  'level_text': 'The Marshal and Unmarshal bodies of all 115 command structures are re-translated from /repo into a small imperative IR on '
                'every run; the kernel decides (decide +kernel) that exactly 90 structures satisfy Mirror (same slots, order, widths, byte '
                'order, length dependencies; no field changed after it is emitted; offset reset between blocks; lengths read before their '
@@ -32,8 +34,17 @@ CONFIG = {'gen': ['SmbCommands'],
                'models, and smb_roundtrip / smb_reencode for the 90 regenerated Mirror commands (10 of the 16 AndX commands). The IR '
                'semantics (runM/runU/encodeCmd/decodeCmd) is executed by the driver on the same field assignments as the real code for all '
                '114 factory-reachable commands, and the real code is compared with the round-trip specification (decode(encode v) = v, '
-               're-encode identical, slot locality) on internally consistent assignments. For the 25 non-mirror commands the round trip is '
-               'decided by the correspondence runs only.',
+               're-encode identical, slot locality) on internally consistent assignments. The loop fragment (MirrorLoops: matching loop '
+               'pairs over list fields — range loop against a loop counted by a field read before it or running over a fixed array —, one '
+               "optional trailing parameter integer under 'WordCount tells which', padding arithmetic on lengths already read, a last read "
+               'without advance) is proved the same way: mirror_loops_roundtrip, mirror_loops_reencode (codec laws on the element types '
+               "too; consistent asks list elements to be fixed points of their Marshal; receiverFits: the receiver's fixed arrays have the "
+               "sender's length and an optional integer the sender holds as zero is zero — optional_stale_counterexample shows the stale "
+               'value surviving otherwise), smb_loops_roundtrip / smb_loops_reencode for the 98 regenerated MirrorLoops commands '
+               '(loop_mirror_commands: LockingAndxRequest, OpenAndxRequest, SessionSetupAndxRequest, SessionSetupAndxResponse, '
+               'TransactionRequest, WriteAndxRequest, WriteMpxRequest, WriteRawRequest; mirror_loops_extends; mirror_loops_types_lawful). '
+               'For the 17 commands outside (non_mirror_loops_commands: 13 recorded structural findings, whole-block / unchecked decodes, '
+               'WriteRequest) the round trip is decided by the correspondence runs only.',
  'level_note': 'Trusted: Lean kernel; axioms propext, Classical.choice, Quot.sound; the extractor and the IR semantics are tied to the Go '
                'code by differential testing (bounded); C06 models of nested types; known findings are recognised by Lean predicates on '
                'the extracted programs, one key per command.'}
